@@ -16,7 +16,18 @@ import tempfile
 import numpy as np
 
 _CACHE = {}
-SCRATCH = os.environ.get('VERIF_SCRATCH') or os.path.join(tempfile.gettempdir(), 'fsic-verif-fortran')
+# one scratch directory per process (created on first use, removed by cleanup()): concurrent runs of the check - a quick and a thorough
+# run, or runs against different trees - must not share module files or remove each other's shared objects
+SCRATCH = None
+
+
+def _scratch() -> str:
+    global SCRATCH
+    if SCRATCH is None or not os.path.isdir(SCRATCH):
+        base = os.environ.get('VERIF_SCRATCH') or tempfile.gettempdir()
+        os.makedirs(base, exist_ok=True)
+        SCRATCH = tempfile.mkdtemp(prefix=f'fsic-verif-fortran-{os.getpid()}-', dir=base)
+    return SCRATCH
 
 
 class CompileError(Exception):
@@ -27,12 +38,12 @@ def compile_source(source: str):
     key = hashlib.sha256(source.encode()).hexdigest()[:20]
     if key in _CACHE:
         return _CACHE[key]
-    os.makedirs(SCRATCH, exist_ok=True)
-    src = os.path.join(SCRATCH, f'm{key}.f95')
-    lib = os.path.join(SCRATCH, f'm{key}.so')
+    scratch = _scratch()
+    src = os.path.join(scratch, f'm{key}.f95')
+    lib = os.path.join(scratch, f'm{key}.so')
     with open(src, 'w') as f:
         f.write(source)
-    p = subprocess.run(['gfortran', '-shared', '-fPIC', '-O0', '-J', SCRATCH, '-o', lib, src], capture_output=True, text=True)
+    p = subprocess.run(['gfortran', '-shared', '-fPIC', '-O0', '-J', scratch, '-o', lib, src], capture_output=True, text=True)
     try:
         if p.returncode != 0:
             raise CompileError(p.stderr[-600:])
@@ -50,8 +61,11 @@ def compile_source(source: str):
 
 def cleanup():
     import shutil
+    global SCRATCH
     _CACHE.clear()
-    shutil.rmtree(SCRATCH, ignore_errors=True)
+    if SCRATCH is not None:
+        shutil.rmtree(SCRATCH, ignore_errors=True)
+        SCRATCH = None
 
 
 def _i(x):
